@@ -690,6 +690,19 @@ pub fn check_program<F: Family>(idx: usize, prog: &Program<F>, mode: &Mode) -> P
                 rep.capped = true;
             }
             rep.full_tree = mode.preemption_bound.is_none() && !ts.exec_cap_hit && ts.depth_cap_hits == 0;
+            if let Some((what, path)) = &ts.after_stop {
+                viols.push(Violation {
+                    kind: VKind::Contract,
+                    culprit: "scheduler-called-after-None".into(),
+                    family: F::NAME.into(),
+                    program_idx: idx,
+                    program: desc.clone(),
+                    op_kinds: kinds.clone(),
+                    what: what.clone(),
+                    alts: alts_to_strings(path),
+                    choices: path.iter().map(|n| n.idx).collect(),
+                });
+            }
         }
     }
     rep.traces_validated = validated;
